@@ -297,10 +297,14 @@ def _key(fn, nid):
     return None
 
 
-def simulate_schema(seed, children, rnd, lo_nd=0, hi_nd=48):
+HI_ND = [48]
+
+
+def simulate_schema(seed, children, rnd, lo_nd=0, hi_nd=None):
     """evaluate the extracted queue schema (a model of the loop, not OMPL code) for nd in a range and compare the
     visited index set with 1..nd-1.  seed = (guard, lo, hi) as python lambdas over nd; children = list of
     (guard(a,b,mid), lo(a,b,mid), hi(a,b,mid)); rnd = rounding offset in mid = (a+b+rnd)//2."""
+    hi_nd = HI_ND[0] if hi_nd is None else hi_nd
     for nd in range(lo_nd, hi_nd + 1):
         want = list(range(1, nd))
         visited = []
@@ -527,8 +531,8 @@ def r05c_bisect(rep, F, fn, label, role, nd_atom, seed_want, interior):
         msg = simulate_schema(seed_o, children, sch['rnd'], lo_nd=0)
     rep.add('R05c', label, role + ':queue-schema', msg is None, fn.where(sch['loop']),
             msg or 'seed (%s , %s), mid=(a+b%+d)/2, children %s: visits exactly the interior indices for every '
-                   'segment count 0..48 (and by the inductive argument in DESIGN.md for the two proven schemas)'
-            % (lin.show(slo), lin.show(shi), sch['rnd'], '; '.join(chdesc)),
+                   'segment count 0..%d (and by the inductive argument in DESIGN.md for the two proven schemas)'
+            % (lin.show(slo), lin.show(shi), sch['rnd'], '; '.join(chdesc), HI_ND[0]),
             sample={'seed': [lin.show(slo), lin.show(shi)], 'children': chdesc, 'mid_rounding': sch['rnd']})
     return sch
 
@@ -867,6 +871,7 @@ def r05e(rep, F):
 
 
 def run(rep):
+    HI_ND[0] = 400 if getattr(rep, 'tier', 'quick') == 'thorough' else 48      # thorough tier: segment counts up to 400
     F = facts.load_units(UNITS)
     rep.units.update(UNITS)
     fns = [f for f in F.functions if BASE in (f.d.get('overrides') or [])]
